@@ -112,7 +112,7 @@ def obs_feature(f, _seen=None):
     rels = []
     for r in f.relations:
         rels.append((_strict_int(r.card_min), _strict_int(r.card_max),
-                     tuple(obs_feature(c, _seen) for c in r.children)))
+                     tuple([obs_feature(c, _seen) for c in r.children])))
     ftype = f.feature_type.value if isinstance(f.feature_type, FeatureType) else ('obj', str(f.feature_type))
     fc = f.feature_cardinality
     fcard = (_strict_int(getattr(fc, 'min', None)), _strict_int(getattr(fc, 'max', None)))
